@@ -152,7 +152,12 @@ def Media.stream (m : Media) : Option Stream :=
     match m.rtpmaps.find? (·.pt = pt) with
     | some r => some { media := m.media, pt := pt, encoding := r.encoding, clockRate := r.clockRate, encParams := r.params,
                        control := m.control, params := ((m.fmtps.find? (·.1 = pt)).map (·.2)).getD [] }
-    | none => none
+    | none =>
+      -- RFC 3551 table 4: static payload types need no rtpmap (0 = PCMU/8000, 8 = PCMA/8000)
+      if m.media = str "audio" ∧ (pt = 0 ∨ pt = 8) then
+        some { media := m.media, pt := pt, encoding := (if pt = 0 then str "PCMU" else str "PCMA"), clockRate := 8000,
+               encParams := none, control := m.control, params := [] }
+      else none
   | _ => none
 
 def Stream.param (s : Stream) (k : String) : Option Bytes := (s.params.find? (·.1 = str k)).map (·.2)
